@@ -167,3 +167,27 @@ Example C18_unfiltered_scan_lists_block_entry :
   map snd (filter (fun e => is_prefix (xa ++ [slash]) (fst e)) (run ex_ops)) =
   [block_entry xa xb; mkNote xa xb 100 [123; 125]%N []].
 Proof. vm_compute. reflexivity. Qed.
+
+(* ---------------------------------------------------------------------------------------------
+   Tie to the code by translation + proof: the functions below are GENERATED on every run from /repo's
+   current Go source (translator/gen_gofuncs.go -> Gen/GoNotif.v); the theorems say that the hand-written model the
+   property theorems above are about computes what the generated function computes, for all arguments. *)
+From Coq Require Import String.
+From JK Require Import Base.GoSem Gen.GoNotif Proofs.GoTieNotif.
+
+(* CreateNotification, generated from the current source: a notification is stored only for valid contents, a
+   recipient that resolves, a sender the recipient has not blocked and a free to/from/time slot; the model's handler
+   is the interpretation of that on the reads taken from its store *)
+Theorem C18_code_tie_CreateNotification :
+  forall s cr target now contents priv json_ok,
+    let sender := sg_name cr in
+    let n := match target with Some addr => mkNote addr sender now contents priv | None => mkNote [] sender now contents priv end in
+    h_create s cr target now contents priv json_ok
+    = match gen_CreateNotification json_ok (match target with Some _ => true | None => false end)
+              (match target with Some addr => kv_has s (bkey addr sender) | None => false end)
+              (kv_has s (nkey_of n)) with
+      | GVal (_, true) => (kv_set s (nkey_of n) n, Ok)
+      | _ => (s, Fail)
+      end.
+Proof. exact h_create_is_the_interpretation. Qed.
+Print Assumptions C18_code_tie_CreateNotification.
